@@ -13,12 +13,28 @@ THEOREMS = THEOREMS + vcore.theorems_in("SodiumModel/Properties/C07Reduce.lean",
 IMPORTS = ["SodiumModel.Properties.C07"] if THEOREMS else ["SodiumModel.Spec.Ed25519"]
 IMPORTS = IMPORTS + ["SodiumModel.Properties.C07Reduce"]
 TABLES = ['core_ed25519_L_eq']      # Tie B: kernel-checked `table regenerated from the source = model table`
+# the ge25519 group-operation code (point formulas, signed-window recoding, constant-time table lookups, the three scalar multiplications, base tables) in the C's structure
+THEOREMS = THEOREMS + vcore.theorems_in("SodiumModel/Properties/C06Ge.lean", ['isCached_sc', 'isPrecomp_sc', 'extEq_of_sc', 'p1p1_to_p3_extended', 'p1p1_to_p2_eq', 'p3_to_cached_correct', 'add_cached_correct', 'sub_cached_correct', 'madd_correct', 'msub_correct', 'p2_dbl_correct', 'p3_dbl_correct', 'p2_dbl_negated', 'add_cached_coordinatewise', 'p3_add_correct', 'p3_sub_correct', 'neutral_elements', 'recode_correct', 'recode_digits_in_range', 'recode_top_digit_out_of_range', 'scalarmult_drops_top_digit', 'slide_vartime_correct', 'slide_vartime_loses_carry', 'cmov8_cached_lookup', 'cmov8_lookup', 'cmov8_cached_multiple', 'cmov8_cached_out_of_range', 'cmov8_multiple', 'eff_sum_eq', 'scalarmult_abstract', 'scalarmult_abstract_general', 'scalarmult_base_abstract', 'double_scalarmult_abstract', 'double_scalarmult_abstract_exact', 'scalarmult_spec', 'scalarmult_base_spec', 'double_scalarmult_spec', 'base_tables_correct', 'scalarmult_base_correct', 'double_scalarmult_correct', 'mul_l_abstract', 'is_on_main_subgroup_spec', 'fe25519_invert_correct', 'fe25519_pow22523_correct', 'has_small_order_correct', 'is_on_curve_correct', 'is_on_curve_weaker_than_spec'], "Sodium.C06Ge")
+IMPORTS = IMPORTS + ["SodiumModel.Properties.C06Ge"]
+FINGERPRINTS = "C06"     # Tie B: pinned source text of the transcribed ge25519 functions (tools/fingerprint.py)
 TIEB_SC = True     # Tie B: the sc25519 limb model is re-transcribed from the current source and the proofs re-checked against it
 RULE = ("structured 32-byte encodings: every small-order point and alias, y >= p, x = 0 with sign bit, non-squares, prime-order points shifted by each torsion point, random; "
         "scalars 0, 1, L-1, L, L+1, 2L, 8L, 2^252 +- k, 2^255 +- k, all-ones, random reduced and unreduced, 64-byte inputs up to 2^512-1; hash-to-group for both hashes, NU and RO, "
         "contexts NULL / empty / up to 255 / longer than 255 bytes; Ristretto negative / non-canonical encodings; every op on ed25519 and ristretto255 wrappers")
 ASSUMPTIONS = ["point arithmetic, the sc25519 limb code and the Elligator / Ristretto maps are translation-validated against executable specifications over naturals (RFC 8032, 9380, 9496)"]
 P, LL = edpy.p, edpy.L
+
+
+
+def tie_b(ctx):
+    """the precomputed base-point tables (fe_51/base.h, base2.h, constants.h) are re-extracted from the current source; if the text differs the kernel re-checks
+    all 264 entries against the specification base point (Proofs/Ge25519TablesOK.lean) and the theorems that use them"""
+    import subprocess, sys, os
+    gen = lambda out: subprocess.run([sys.executable, os.path.join(vcore.VERIF, "tools", "gen_ge_base.py"), os.path.join(vcore.REPO, "src", "libsodium"), out], capture_output=True, text=True)
+    r = vcore.tie_b_regen(ctx, "ge25519 precomputed tables (tools/gen_ge_base.py)", gen, "SodiumModel/Model/Ge25519Tables.lean", "SodiumModel.Properties.C06Ge",
+                          ["Sodium.C06Ge.base_tables_correct", "Sodium.C06Ge.scalarmult_base_correct", "Sodium.C06Ge.double_scalarmult_correct"])
+    ctx.log("Tie B: ge25519 base tables re-extracted from the source, %s" % ("identical / proofs hold" if not r else "CHANGED: %s" % [x[0] for x in r]))
+    return r
 
 
 def configs(tier):
